@@ -86,12 +86,12 @@ theorem C01_denoted_table_preserves (g : Segment) (A : Option Assets) (rank : Ui
       rw [hid, hv] at this
       exact this
 
-theorem describes_denotes {g : Segment} {A : Option Assets} {t : Table} (h : g.describes A t = true) :
+theorem C01_describes_denotes {g : Segment} {A : Option Assets} {t : Table} (h : g.describes A t = true) :
     Denotes g A t ∧ (t.map (·.id)).Nodup := by
   simp only [describes, Bool.and_eq_true, List.all_eq_true, List.contains_iff_mem, allDistinct_iff_nodup] at h
   exact ⟨fun s => ⟨h.1.1 s, h.1.2 s⟩, h.2⟩
 
-theorem denotes_describes {g : Segment} {A : Option Assets} {t : Table} (hd : Denotes g A t)
+theorem C01_denotes_describes {g : Segment} {A : Option Assets} {t : Table} (hd : Denotes g A t)
     (hnd : (t.map (·.id)).Nodup) : g.describes A t = true := by
   simp only [describes, Bool.and_eq_true, List.all_eq_true, List.contains_iff_mem, allDistinct_iff_nodup]
   exact ⟨⟨fun s hs => (hd s).mp hs, fun s hs => (hd s).mpr hs⟩, hnd⟩
@@ -101,7 +101,7 @@ passes the executable validator `describes` preserves the dataflow. -/
 theorem C01_dataflow_validated (g : Segment) (A : Option Assets) (rank : Uid → Nat) (order : List Uid)
     (t : Table) (hwf : g.wf rank = true) (hA : g.assetsOK A = true) (_hc : compile g A order = .ok t)
     (hv : g.describes A t = true) : Preserves g A t :=
-  C01_denoted_table_preserves g A rank t hwf hA (describes_denotes hv).1 (describes_denotes hv).2
+  C01_denoted_table_preserves g A rank t hwf hA (C01_describes_denotes hv).1 (C01_describes_denotes hv).2
 
 /-! ### the compiler -/
 
@@ -112,7 +112,7 @@ theorem C01_compile_denotes (g : Segment) (A : Option Assets) (rank : Uid → Na
     (hwf : g.wf rank = true) (hA : g.assetsOK A = true) (hl : g.linked A = true) (hp : order.Perm g.uids) :
     ∃ t, compile g A order = .ok t ∧ g.describes A t = true := by
   obtain ⟨t, hc, hd, hnd⟩ := compile_denotes hwf hA hl hp
-  exact ⟨t, hc, denotes_describes hd hnd⟩
+  exact ⟨t, hc, C01_denotes_describes hd hnd⟩
 
 /-- **C01 at full strength**: every well-formed segment, every compatible accessor, every visit order. -/
 def C01_dataflow_full : Prop :=
